@@ -68,15 +68,24 @@ def run_container(ctx, prop: str, cls: str) -> Result:
     ctx.add_sites(res, ctx.sites(rules=KIND_RULES.keys(), classes=[cls]))
     # module-level helpers of the class's file (canonicalisers / size helpers)
     ctx.add_sites(res, ctx.sites(rules=KIND_RULES.keys(), files=[T.CORE_FILES[cls]]))
-    RC.check_add_edge(ctx, res, cls)
-    RC.check_remove_edge(ctx, res, cls)
-    RC.check_add_node(ctx, res, cls)
-    RC.check_remove_node(ctx, res, cls)
-    RC.check_clear(ctx, res, cls, exempt=("_incidences_metadata", "_empty_edges"))
-    RC.check_atomic(ctx, res, cls, MUTATORS_ATOMIC)
-    RC.check_neighbors(ctx, res, cls)
-    RC.check_record_creation_guarded(ctx, res, cls)
-    RC.check_live_iteration(ctx, res, cls)
+    with res.guard("RC.check_add_edgectx, res, cls"):
+        RC.check_add_edge(ctx, res, cls)
+    with res.guard("RC.check_remove_edgectx, res, cls"):
+        RC.check_remove_edge(ctx, res, cls)
+    with res.guard("RC.check_add_nodectx, res, cls"):
+        RC.check_add_node(ctx, res, cls)
+    with res.guard("RC.check_remove_nodectx, res, cls"):
+        RC.check_remove_node(ctx, res, cls)
+    with res.guard("RC.check_clearctx, res, cls, exempt_incidences_metadata, _empty_edges"):
+        RC.check_clear(ctx, res, cls, exempt=("_incidences_metadata", "_empty_edges"))
+    with res.guard("RC.check_atomicctx, res, cls, MUTATORS_ATOMIC"):
+        RC.check_atomic(ctx, res, cls, MUTATORS_ATOMIC)
+    with res.guard("RC.check_neighborsctx, res, cls"):
+        RC.check_neighbors(ctx, res, cls)
+    with res.guard("RC.check_record_creation_guardedctx, res, cls"):
+        RC.check_record_creation_guarded(ctx, res, cls)
+    with res.guard("RC.check_live_iterationctx, res, cls"):
+        RC.check_live_iteration(ctx, res, cls)
     # ---- queries are read-only; mutators do not share one mutable object between entries; copy is deep
     eff = Effects(ctx)
     mutators, queries = [], []
@@ -85,21 +94,29 @@ def run_container(ctx, prop: str, cls: str) -> Result:
             continue
         (mutators if name in EXPECTED_MUTATORS else queries).append(name)
     for name in sorted(queries):
-        check_pure(ctx, eff, res, f"{cls}.{name}", roots=("self",))
+        with res.guard("check_purectx, eff, res, fcls.name, rootsself,"):
+            check_pure(ctx, eff, res, f"{cls}.{name}", roots=("self",))
     for name in sorted(mutators):
-        check_shared_literals(ctx, res, f"{cls}.{name}")
+        with res.guard("check_shared_literalsctx, res, fcls.name"):
+            check_shared_literals(ctx, res, f"{cls}.{name}")
     if "copy" in ctx.methods(cls):
-        check_deepcopy(ctx, res, f"{cls}.copy")
+        with res.guard("check_deepcopyctx, res, fcls.copy"):
+            check_deepcopy(ctx, res, f"{cls}.copy")
     # ---- filtered queries: comparison shapes, exclusion guard, None tests, forwarding
     for name in FILTER_METHODS:
         if name in ctx.methods(cls):
             d = f"{cls}.{name}"
-            M.check_upto(ctx, res, d)
-            M.check_exclusion(ctx, res, d)
-            M.check_none_tests(ctx, res, d)
-            F.check_use(ctx, res, d, ("order", "size", "up_to"))
+            with res.guard("M.check_uptoctx, res, d"):
+                M.check_upto(ctx, res, d)
+            with res.guard("M.check_exclusionctx, res, d"):
+                M.check_exclusion(ctx, res, d)
+            with res.guard("M.check_none_testsctx, res, d"):
+                M.check_none_tests(ctx, res, d)
+            with res.guard("F.check_usectx, res, d, order, size, up_to"):
+                F.check_use(ctx, res, d, ("order", "size", "up_to"))
     wrappers = [f"{cls}.{n}" for n in ctx.methods(cls) if n not in RAW_SETTERS]
-    F.check_forwarding(ctx, res, wrappers)
+    with res.guard("F.check_forwardingctx, res, wrappers"):
+        F.check_forwarding(ctx, res, wrappers)
     res.assumptions += [
         "A1: node labels are not tuples (isinstance(<node>, tuple) folds to False in the canonicalisers)",
         "table kinds of hgxverif/tables.py (frozen from __init__/add_edge/add_node; cross-checked against inference on every run)",
